@@ -1112,7 +1112,13 @@ func expand(f *seqx.Family, t Task, letter string) (seqx.Succ, error) {
 	// on the image with its journal recording; the durability state of the files is the real
 	// one of the crash point (tf), carried through the recovery's own writes and fsyncs.
 	seen06d2 := map[string]bool{}
+	// (short histories only, also in the thorough tier: every image costs a journaled recovery
+	// plus up to 64 further recoveries per recovery step)
+	depth2C06 := os.Getenv("VERIF_NO_DEPTH2") == "" && (len(t.Hist) < 3 || (t.Tier == "thorough" && len(t.Hist) < 4))
 	judge06d2 := func(tf *fsState, k int, step, variant string) {
+		if !depth2C06 {
+			return
+		}
 		im := tf.full()
 		call, before, after := rec.ctxAt(k, m0)
 		wd := rec.durableAt(k)
@@ -1279,7 +1285,7 @@ func expand(f *seqx.Family, t Task, letter string) (seqx.Succ, error) {
 				judge05(tf.full(), k, step, fmt.Sprintf("torn after %d of %d bytes", b, len(e.Data)))
 			}
 		}
-		if do06 && depth2 && e.Kind == vos.EvWrite && !isHeaderWrite(e) && len(e.Data) > 1 {
+		if do06 && depth2C06 && e.Kind == vos.EvWrite && !isHeaderWrite(e) && len(e.Data) > 1 {
 			for _, b := range tornLens(len(e.Data), "quick") {
 				variant := fmt.Sprintf("torn after %d of %d bytes", b, len(e.Data))
 				if e.Off+int64(b) < 8 || (t.Tier != "thorough" && !boundaryTorn(variant)) {
@@ -1298,7 +1304,7 @@ func expand(f *seqx.Family, t Task, letter string) (seqx.Succ, error) {
 		}
 		if do06 {
 			judge06(k+1, step)
-			if depth2 && e.Kind != vos.EvFsync && e.Kind != vos.EvFsyncDir {
+			if depth2C06 && e.Kind != vos.EvFsync && e.Kind != vos.EvFsyncDir {
 				judge06d2(fs, k, step, "after the step")
 			}
 		}
